@@ -32,10 +32,10 @@ structure St where
   /-- cutoffs of the worker's windows (for `run`) -/
   wsc : Nat := 0
   wpc : Nat := 0
-  /-- largest cutoffs this worker has refreshed its cache with; `tainted` once a cutoff went backwards -/
-  maxSc : Nat := 0
-  maxPc : Nat := 0
-  tainted : Bool := false
+  /-- the cutoffs (half ticks) of the call in which the worker's cached window edges were last set:
+      a cached edge is right for every cutoff at or above the one it was computed with -/
+  edgeSc : Nat := 0
+  edgePc : Nat := 0
 
 def showErr : PErr → String
   | .storeNotFound => "err store-not-found"
@@ -168,7 +168,7 @@ def step (st : St) (line : String) : St × String :=
   | "worker" :: _ =>
     match natArg? ws "sc", natArg? ws "pc" with
     | some sc, some pc =>
-      ({ st with worker := some {}, wsc := 2 * sc + 1, wpc := 2 * pc + 1, maxSc := 0, maxPc := 0, tainted := false }, "ok")
+      ({ st with worker := some {}, wsc := 2 * sc + 1, wpc := 2 * pc + 1, edgeSc := 0, edgePc := 0 }, "ok")
     | _, _ => (st, "bad-op")
   | "batch" :: _ =>
     match st.worker, natArg? ws "sc", natArg? ws "pc", natArg? ws "refresh", natListArg? ws "refuse" with
@@ -176,28 +176,24 @@ def step (st : St) (line : String) : St × String :=
       let sc := 2 * sc0
       let pc := 2 * pc0
       let refresh := rf != 0
-      let st1 : St :=
-        if refresh then
-          { st with tainted := st.tainted || decide (sc < st.maxSc) || decide (pc < st.maxPc),
-                    maxSc := max st.maxSc sc, maxPc := max st.maxPc pc }
-        else { st with tainted := st.tainted || decide (sc < st.maxSc) || decide (pc < st.maxPc) }
       match getNextPrunableBatch LIMIT st.store w sc pc refresh (fun h => !(refuse.contains h)) with
-      | .error e => (st1, showErr e)
+      | .error e => (st, showErr e)
       | .ok (batch, w', msgs) =>
-        ({ st1 with worker := some w' },
+        ({ st with worker := some w',
+                   edgeSc := if w'.cache.afterSampling != w.cache.afterSampling then sc else st.edgeSc,
+                   edgePc := if w'.cache.afterPruning != w.cache.afterPruning then pc else st.edgePc },
           s!"ok batch={showRanges batch} cache={showCache w'.cache} prev={w'.prevNum} msgs={showList (msgs.map showMsg)}")
     | _, _, _, _, _ => (st, "bad-op")
   | "run" :: _ =>
     match st.worker, (arg? ws "refuse").bind parseCounters with
     | some w, some cs =>
-      let st1 : St :=
-        { st with tainted := st.tainted || decide (st.wsc < st.maxSc) || decide (st.wpc < st.maxPc),
-                  maxSc := max st.maxSc st.wsc, maxPc := max st.maxPc st.wpc }
       let fuel := (heights st.store.stored).length + 2
       match runLoop fuel st.store w st.wsc st.wpc true cs [] [] with
-      | .error e => (st1, showErr e)
+      | .error e => (st, showErr e)
       | .ok (s', w', msgs, effs) =>
-        ({ st1 with store := s', worker := some w' },
+        ({ st with store := s', worker := some w',
+                   edgeSc := if w'.cache.afterSampling != w.cache.afterSampling then st.wsc else st.edgeSc,
+                   edgePc := if w'.cache.afterPruning != w.cache.afterPruning then st.wpc else st.edgePc },
           s!"ok msgs={showList (msgs.map showMsg)} effs={showEffs effs} events={showEvents effs} " ++
           s!"stored={showRanges s'.stored} pruned={showRanges s'.pruned} cache={showCache w'.cache} prev={w'.prevNum}")
     | _, _ => (st, "bad-op")
@@ -232,45 +228,55 @@ def parseLog (s : String) : Option (List Ev) :=
     | 'X' :: rest => (String.ofList rest).toNat?.map Ev.height
     | _ => none
 
+/-- Verdict for a result that fails the checker at the call's own cutoffs.  KNOWN class
+    (`known_findings.json`): the cutoff of this call is LOWER than the cutoff at which a cached
+    window edge was computed (the clock ran backwards) and the result passes the checker once each
+    cutoff is replaced by the larger one the cached edge was right for.  Anything else is a new
+    violation. -/
+def staleVerdict (st st' : St) (sc pc : Nat) (okAt : Nat → Nat → Bool) (other : String) : String :=
+  let stale := decide (sc < st'.edgeSc) || decide (pc < st'.edgePc)
+  if stale && okAt (max sc st'.edgeSc) (max pc st'.edgePc) then
+    s!"specfail C35/backward-clock-stale-cached-edge cutoffs {sc}/{pc} are below the cutoffs {st.edgeSc}/{st.edgePc} " ++
+      "the cached window edges were computed with; heights inside the window are in the batch"
+  else other
+
 def spec (st : St) (op : String) (obs : String) : String :=
   let ws := words op
   let os := words obs
+  -- the model's state after the op: tells at which cutoffs the cached edges are (still) from
+  let st' := (step st op).1
   match ws with
   | "batch" :: _ =>
     match natArg? ws "sc", natArg? ws "pc" with
     | some sc0, some pc0 =>
       let sc := 2 * sc0
       let pc := 2 * pc0
-      -- the property presupposes a clock that does not run backwards (cutoffs never decrease
-      -- during the life of a worker) — otherwise the cached window edges mean nothing
-      let back := st.tainted || decide (sc < st.maxSc) || decide (pc < st.maxPc)
-      if back then "specskip"
-      else
-        match os with
-        | "ok" :: _ =>
-          match (arg? os "batch").bind parseRanges, arg? os "msgs" with
-          | some batch, some msgs =>
-            if batchOK (view st sc pc) (parseAnswers msgs) (heights batch) then "specok"
-            else "specfail C35/batch-unsafe-height the batch contains a height that must not be removed"
-          | _, _ => "specfail C35/bad-result unparsable"
-        | _ => "specskip"
-    | _, _ => "specskip"
-  | "run" :: _ =>
-    let back := st.tainted || decide (st.wsc < st.maxSc) || decide (st.wpc < st.maxPc)
-    if back then "specskip"
-    else
       match os with
       | "ok" :: _ =>
-        match arg? os "msgs", (arg? os "effs").bind parseLog with
-        | some msgs, some log =>
-          let v := view st st.wsc st.wpc
-          if !(removedHeights log).all (fun h => v.removable (lastAnswer (parseAnswers msgs)) h) then
-            "specfail C35/run-removed-unsafe-height a removed height was not removable"
-          else if !orderOK st.store.cids log [] then
-            "specfail C35/run-header-before-cids remove_height before the blockstore removals"
-          else "specok"
+        match (arg? os "batch").bind parseRanges, arg? os "msgs" with
+        | some batch, some msgs =>
+          let okAt := fun (a b : Nat) => batchOK (view st a b) (parseAnswers msgs) (heights batch)
+          if okAt sc pc then "specok"
+          else staleVerdict st st' sc pc okAt
+            "specfail C35/batch-unsafe-height the batch contains a height that must not be removed"
         | _, _ => "specfail C35/bad-result unparsable"
+      -- a failed call removes nothing (a fatal pruner error is not a violation of C35)
       | _ => "specskip"
+    | _, _ => "specskip"
+  | "run" :: _ =>
+    match os with
+    | "ok" :: _ =>
+      match arg? os "msgs", (arg? os "effs").bind parseLog with
+      | some msgs, some log =>
+        let okAt := fun (a b : Nat) =>
+          (removedHeights log).all (fun h => (view st a b).removable (lastAnswer (parseAnswers msgs)) h)
+        if !orderOK st.store.cids log [] then
+          "specfail C35/run-header-before-cids remove_height before the blockstore removals"
+        else if okAt st.wsc st.wpc then "specok"
+        else staleVerdict st st' st.wsc st.wpc okAt
+          "specfail C35/run-removed-unsafe-height a removed height was not removable"
+      | _, _ => "specfail C35/bad-result unparsable"
+    | _ => "specskip"
   | _ => "specskip"
 
 def handler : Driver.Handler St := { init := {}, step := step, spec := spec }
